@@ -53,7 +53,7 @@ func (world) Describe() super.Description {
 			"real": []string{"parse", "compile", "schema", "xpath (compile path for must/when/leafref)", "all mechanically instrumented by simrewrite R1 (map-range order seam)"},
 			"stub": []string{"FeaturesChecker (table from the tape)", "Extensions (pass-through, optional failure at k-th call)"},
 		},
-		FaultKinds: []string{"map-order-permutation", "module-order-permutation", "history-compile", "extensions-error"},
+		FaultKinds: []string{"map-order-permutation", "module-order-permutation", "history-compile", "extensions-error", "extensions-callback-with-memory"},
 		Extra:      map[string]any{},
 	}
 	if b, err := os.ReadFile(os.Getenv("VERIF_REWRITE_LOG")); err == nil {
@@ -90,6 +90,17 @@ func (f feats) Status(name string) compile.FeatureStatus {
 type ext struct {
 	calls  int
 	failAt int
+	stamp  bool // ExtendModel hands back a model that carries the number of the call that made it
+	models int
+}
+
+// stampedModel is a replacement model whose only difference from the original is a field saying in
+// which ExtendModel call it was made: a callback whose result depends on how often it was called
+// before. The compiler calls ExtendModel once per module in dependency order; if that order depended
+// on a map, the reflective dump of the ModelSet would show it.
+type stampedModel struct {
+	schema.Model
+	MadeInCall int
 }
 
 var errExt = fmt.Errorf("SIMFAULT-extensions")
@@ -104,7 +115,12 @@ func (e *ext) step() error {
 func (e *ext) NodeCardinality(parse.NodeType) map[parse.NodeType]parse.Cardinality { return nil }
 func (e *ext) ExtendModelSet(m schema.ModelSet) (schema.ModelSet, error)           { return m, e.step() }
 func (e *ext) ExtendModel(p parse.Node, m schema.Model, t schema.Tree) (schema.Model, error) {
-	return m, e.step()
+	err := e.step()
+	if e.stamp && err == nil && m != nil {
+		e.models++
+		return stampedModel{m, e.models}, nil
+	}
+	return m, err
 }
 func (e *ext) ExtendRpc(p parse.Node, r schema.Rpc) (schema.Rpc, error) { return r, e.step() }
 func (e *ext) ExtendNotification(p parse.Node, n schema.Notification) (schema.Notification, error) {
@@ -523,6 +539,8 @@ func (w world) RunCase(t *tape.Tape, st *super.Stats) *super.Violation {
 		J = 24
 	}
 	setKey := super.Hash(setDesc())
+	var stampRef result
+	haveStampRef := false
 	for j := 0; j < J; j++ {
 		// module supply order
 		order := append([]string(nil), canonOrder...)
@@ -545,10 +563,23 @@ func (w world) RunCase(t *tape.Tape, st *super.Stats) *super.Violation {
 			inc("fault:history-compile")
 		}
 		var ex *ext
+		ref := r0 // what this run is compared with
 		if t.Rare(5) {
 			ex = &ext{}
 			if t.Coin() {
 				ex.failAt = 1 + t.Draw(12)
+			} else if t.Coin() && r0.err == nil {
+				// a callback with a memory: every model it hands back carries the number of the call that made it.
+				// The reference for such a run is a run with the same kind of callback in the reference order.
+				ex.stamp = true
+				if !haveStampRef {
+					simrt.Order = nil
+					stampRef = compileOnce(texts, canonOrder, fc, &ext{stamp: true}, skipUnknown, true)
+					haveStampRef = true
+					inc("compiles")
+				}
+				ref = stampRef
+				inc("fault:extensions-callback-with-memory")
 			}
 		}
 		rec := &orderRec{t: t, st: st, siteMax: map[string]int{}, siteHits: map[string]int{}}
@@ -614,12 +645,12 @@ func (w world) RunCase(t *tape.Tape, st *super.Stats) *super.Violation {
 			}
 			continue // verdict necessarily differs from R0 when R0 succeeded
 		}
-		if (rj.err == nil) != (r0.err == nil) {
-			return &super.Violation{Class: "order-dependent-verdict", Sig: "order-dependent-verdict|" + errKind(fmt.Sprint(r0.err)+fmt.Sprint(rj.err)),
-				Detail: fmt.Sprintf("reference run: err=%v\n%s: err=%v\npermutations:\n  %s\n%s", r0.err, what, rj.err, siteList(), setDesc())}
+		if (rj.err == nil) != (ref.err == nil) {
+			return &super.Violation{Class: "order-dependent-verdict", Sig: "order-dependent-verdict|" + errKind(fmt.Sprint(ref.err)+fmt.Sprint(rj.err)),
+				Detail: fmt.Sprintf("reference run: err=%v\n%s: err=%v\npermutations:\n  %s\n%s", ref.err, what, rj.err, siteList(), setDesc())}
 		}
 		if rj.err != nil {
-			if rj.err.Error() != r0.err.Error() {
+			if rj.err.Error() != ref.err.Error() {
 				inc("observed:error_text_differs_between_orders")
 			}
 			continue
@@ -627,13 +658,13 @@ func (w world) RunCase(t *tape.Tape, st *super.Stats) *super.Violation {
 		if !rj.dumpOK {
 			continue
 		}
-		if rj.canon != r0.canon {
-			path, a, b := dump.FirstDiff(r0.canon, rj.canon)
+		if rj.canon != ref.canon {
+			path, a, b := dump.FirstDiff(ref.canon, rj.canon)
 			return &super.Violation{Class: "order-dependent-schema", Sig: "order-dependent-schema|" + stripIdx(path),
 				Detail: fmt.Sprintf("compiled schema differs at %s\n  reference: %s\n  this run:  %s\n%s\npermutations:\n  %s\n%s", path, clip(a, 300), clip(b, 300), what, siteList(), setDesc())}
 		}
-		if rj.strict != r0.strict {
-			path, _, _ := dump.FirstDiff(r0.strict, rj.strict)
+		if rj.strict != ref.strict {
+			path, _, _ := dump.FirstDiff(ref.strict, rj.strict)
 			inc("observed:order_only_difference@" + lastField(path))
 		}
 		inc("runs_equal_schema")
